@@ -50,19 +50,19 @@ func c18Flight(t *testing.T, race bool) {
 	timex.VerifRealClock()
 	idx := 0
 	r := m.Rand("flight")
-	ok := c18Loop(m, &idx, c18N(900, 27000, race), func(i, procs int) bool {
+	ok := c18Loop(m, &idx, c18N(900, 13500, race), func(i, procs int) bool {
 		sc := c18GenFlight(r, "sf")
 		sc.Procs = procs
 		return !m.Only(i) || c18RunFlight(m, i, sc)
-	}) && c18Loop(m, &idx, c18N(500, 15000, race), func(i, procs int) bool {
+	}) && c18Loop(m, &idx, c18N(500, 7500, race), func(i, procs int) bool {
 		sc := c18GenFlight(r, "lc")
 		sc.Procs = procs
 		return !m.Only(i) || c18RunFlight(m, i, sc)
-	}) && c18Loop(m, &idx, c18N(300, 9000, race), func(i, procs int) bool {
+	}) && c18Loop(m, &idx, c18N(300, 4500, race), func(i, procs int) bool {
 		sc := c18GenRM(r)
 		sc.Procs = procs
 		return !m.Only(i) || c18RunRM(m, i, sc)
-	}) && c18Loop(m, &idx, c18N(300, 9000, race), func(i, procs int) bool {
+	}) && c18Loop(m, &idx, c18N(300, 4500, race), func(i, procs int) bool {
 		sc := c18GenMR(r)
 		sc.Procs = procs
 		return !m.Only(i) || c18RunMR(m, i, sc)
@@ -81,15 +81,15 @@ func c18Limit(t *testing.T, race bool) {
 	timex.VerifRealClock()
 	idx := 0
 	r := m.Rand("limit")
-	ok := c18Loop(m, &idx, c18N(800, 24000, race), func(i, procs int) bool {
+	ok := c18Loop(m, &idx, c18N(800, 12000, race), func(i, procs int) bool {
 		sc := c18GenLimit(r, false)
 		sc.Procs = procs
 		return !m.Only(i) || c18RunLimit(m, i, sc)
-	}) && c18Loop(m, &idx, c18N(300, 6000, race), func(i, procs int) bool {
+	}) && c18Loop(m, &idx, c18N(300, 3000, race), func(i, procs int) bool {
 		sc := c18GenLimit(r, true)
 		sc.Procs = procs
 		return !m.Only(i) || c18RunLimit(m, i, sc)
-	}) && c18Loop(m, &idx, c18N(60, 1200, race), func(i, procs int) bool {
+	}) && c18Loop(m, &idx, c18N(60, 600, race), func(i, procs int) bool {
 		sc := c18GenLimitContention(r)
 		sc.Procs = procs
 		return !m.Only(i) || c18RunLimit(m, i, sc)
@@ -108,15 +108,15 @@ func c18Pool(t *testing.T, race bool) {
 	defer timex.VerifRealClock()
 	idx := 0
 	r := m.Rand("pool")
-	ok := c18Loop(m, &idx, c18N(600, 18000, race), func(i, procs int) bool {
+	ok := c18Loop(m, &idx, c18N(600, 9000, race), func(i, procs int) bool {
 		sc := c18GenPool(r, false)
 		sc.Procs = procs
 		return !m.Only(i) || c18RunPool(m, i, sc)
-	}) && c18Loop(m, &idx, c18N(600, 18000, race), func(i, procs int) bool {
+	}) && c18Loop(m, &idx, c18N(600, 9000, race), func(i, procs int) bool {
 		sc := c18GenPool(r, true)
 		sc.Procs = procs
 		return !m.Only(i) || c18RunPool(m, i, sc)
-	}) && c18Loop(m, &idx, c18N(400, 12000, race), func(i, procs int) bool {
+	}) && c18Loop(m, &idx, c18N(400, 6000, race), func(i, procs int) bool {
 		sc := c18GenPoolSeq(r)
 		return !m.Only(i) || c18RunPoolSeq(m, i, sc)
 	})
@@ -134,22 +134,22 @@ func c18Misc(t *testing.T, race bool) {
 	defer timex.VerifRealClock()
 	idx := 0
 	r := m.Rand("misc")
-	ok := c18Loop(m, &idx, c18N(700, 21000, race), func(i, procs int) bool {
+	ok := c18Loop(m, &idx, c18N(700, 10500, race), func(i, procs int) bool {
 		sc := c18GenRef(r)
 		sc.Procs = procs
 		return !m.Only(i) || c18RunRef(m, i, sc)
-	}) && c18Loop(m, &idx, c18N(160, 4800, race), func(i, procs int) bool {
+	}) && c18Loop(m, &idx, c18N(160, 2400, race), func(i, procs int) bool {
 		sc := c18GenLock(r)
 		sc.Procs = procs
 		return !m.Only(i) || c18RunLock(m, i, sc)
-	}) && c18Loop(m, &idx, c18N(160, 4800, race), func(i, procs int) bool {
+	}) && c18Loop(m, &idx, c18N(160, 2400, race), func(i, procs int) bool {
 		sc := c18GenOnce(r)
 		sc.Procs = procs
 		if race { // spinning barriers are slow under the race detector
 			sc.Rounds = 10 + sc.Rounds/8
 		}
 		return !m.Only(i) || c18RunOnce(m, i, sc)
-	}) && c18Loop(m, &idx, c18N(200, 6000, race), func(i, procs int) bool {
+	}) && c18Loop(m, &idx, c18N(200, 3000, race), func(i, procs int) bool {
 		sc := c18GenImm(r)
 		return !m.Only(i) || c18RunImm(m, i, sc)
 	})
